@@ -15,6 +15,20 @@ I = z3.IntVal
 def exec_block(ex, st, stmts, cx):
     if not stmts:
         return [('normal', st, None)]
+    blk = ex.block_map.get(id(stmts[0])) if cx.root is cx and not cx.spec else None
+    if blk is not None and blk[0] != ex.verifying_block:
+        name, spec, bstmts = blk
+        outs = apply_block(ex, st, name, spec, bstmts, cx)
+        rest = stmts[len(bstmts):]
+        if not rest:
+            return outs
+        res = []
+        for o in outs:
+            if o[0] == 'normal':
+                res += exec_block(ex, o[1], rest, cx)
+            else:
+                res.append(o)
+        return res
     outs = exec_stmt(ex, st, stmts[0], cx)
     if len(stmts) == 1:
         return outs
@@ -146,18 +160,24 @@ def store_index(ex, st, base, idx, val, cx, node, k):
         base = SV(t.args[0], base.z)
         t = base.ty
     if t.kind == 'list':
-        content = ex.list_content(st, base)
-        n = z3.Length(content)
+        n = ex.list_len(st, base)
+        arr = ex.list_arr(st, base)
         i = ex.coerce(idx, INT).z
         isimp = z3.simplify(i)
         pos = z3.If(i < 0, i + n, i)
         if z3.is_int_value(isimp):
             pos = i if isimp.as_long() >= 0 else i + n
+        elif ex.proves(st, i >= 0):
+            pos = i
         x = ex.coerce(val, t.args[0], 'list item store')
 
         def cont(s):
-            newc = z3.Concat(z3.SubSeq(content, I(0), pos), z3.Unit(x.z), z3.SubSeq(content, pos + 1, n - pos - 1))
-            return k(ex.set_list_content(s, base, newc))
+            def cont2(s2):
+                return k(ex.set_list(s2, base, n, ex.store(arr, pos, x.z)))
+            if t == T.BYTEARRAY:
+                return ex.guard_raise(s, cx, z3.Or(x.z < 0, x.z > 255), 'ValueError', node, cont2,
+                                      why='byte must be in range(0, 256)')
+            return cont2(s)
         return ex.guard_raise(st, cx, z3.Or(pos < 0, pos >= n), 'IndexError', node, cont, why=ast.unparse(node))
     if t.kind == 'dict':
         kt, vt = t.args
@@ -226,7 +246,7 @@ def new_empty(ex, st, ty):
         ty = ty.args[0]
     s2, r = ex.alloc(st, ty, 'new')
     if ty.kind == 'list':
-        s2 = ex.set_list_content(s2, r, z3.Empty(z3.SeqSort(T.sort_of(ty.args[0]))))
+        s2 = ex.set_list(s2, r, I(0), ex.empty_arr(ty.args[0]))
     elif ty.kind == 'dict':
         dk, ds, vk, vs = ex.dkeys(ty)
         s2 = s2.setheap(dk, z3.Store(ex.heap_get(s2, dk, ds), r.z, z3.K(T.sort_of(ty.args[0]), z3.BoolVal(False))))
@@ -572,7 +592,7 @@ def heap_keys_of_modifies(ex, st, targets, cx):
             obj = ex.pure(st, tree, scx)
             ty = obj.ty.args[0] if obj.ty.kind == 'opt' else obj.ty
             if ty.kind == 'list':
-                keys = [ex.lkey(ty.args[0])]
+                keys = [ex.lkey_of(ty), ex.lenkey_of(ty)]
             elif ty.kind == 'dict':
                 dk, ds, vk, vs = ex.dkeys(ty)
                 keys = [dk, vk, 'order:' + T.sort_name(T.sort_of(ty.args[0]))]
@@ -648,6 +668,12 @@ def for_loop(ex, st, s, cx, o, spec):
                 if not z3.is_int_value(stz) or stz.as_long() == 0:
                     raise VCError('range() with symbolic step outside subset')
                 step = stz.as_long()
+            if spec is None:
+                az, bz = z3.simplify(a), z3.simplify(b)
+                if z3.is_int_value(az) and z3.is_int_value(bz):
+                    vals = list(range(az.as_long(), bz.as_long(), step))
+                    if len(vals) <= 256:
+                        return unroll(ex, s2, s, cx, [ast.Constant(value=v) for v in vals])
             s2 = s2.setvar(cname, SV(INT, I(0))).setvar(f'$a{o}', SV(INT, a)).setvar(f'$b{o}', SV(INT, b))
 
             def cur(s3):
@@ -683,15 +709,14 @@ def for_loop(ex, st, s, cx, o, spec):
             raise VCError(f'for over {t!r} outside subset: {ast.unparse(it)}')
         s2 = s2.setvar(cname, SV(INT, I(0))).setvar(f'$it{o}', coll)
 
-        def content(s3):
-            return ex.list_content(s3, coll) if t.kind == 'list' else coll.z
-
         def guard_fn(s3, k):
-            return k(s3, s3.vars[cname].z < z3.Length(content(s3)))
+            n3, _ = ex.seq_view(s3, coll)
+            return k(s3, s3.vars[cname].z < n3)
 
         def bind_fn(s3):
             i = s3.vars[cname].z
-            x = SV(t.args[0], content(s3)[i])
+            _, at3 = ex.seq_view(s3, coll)
+            x = SV(t.args[0], at3(i))
             for fact in ex.type_facts(x):
                 s3 = s3.assume(fact)
             s3 = ex.assume_allocated(s3, x)
@@ -704,3 +729,90 @@ def for_loop(ex, st, s, cx, o, spec):
             raise VCError('for target outside subset')
         return loop_core(ex, s2, s, cx, o, spec, guard_fn, bind_fn, cname)
     return ex.ev(st, src, cx, g)
+
+
+# ------------------------------------------------------------------------------------------ block contracts
+def find_block(fn_node, where):
+    """statements designated by a locator:  body[i:j] | loop[o] | loop[o].body | loop[o].body[i:j]"""
+    import re
+    from .source import strip_docstring
+    m = re.fullmatch(r'(?:loop\[([\d.]+)\])?(?:\.?(body))?(?:\[(\d*):(\d*)\])?', where)
+    if not m:
+        raise VCError(f'block locator {where!r}')
+    o, body, a, b = m.groups()
+    if o is None:
+        stmts = strip_docstring(fn_node.body)
+    else:
+        ords = loop_ordinals(fn_node)
+        node = None
+        for n in ast.walk(fn_node):
+            if ords.get(id(n)) == o:
+                node = n
+        if node is None:
+            raise VCError(f'anchor-missing: loop[{o}] for block {where!r}')
+        if body is None:
+            # the loop statement itself: find its enclosing statement list
+            for n in ast.walk(fn_node):
+                for fld in ('body', 'orelse', 'finalbody'):
+                    lst = getattr(n, fld, None)
+                    if isinstance(lst, list) and node in lst:
+                        return [node]
+            raise VCError(f'loop[{o}] not found in a statement list')
+        stmts = node.body
+    a = int(a) if a else 0
+    b = int(b) if b else len(stmts)
+    return stmts[a:b]
+
+
+def apply_block(ex, st, name, spec, bstmts, cx):
+    """Use a block contract in place of the block: assert requires, havoc what it may modify, assume ensures."""
+    scx = cx.as_spec()
+    scx.module, scx.cls = cx.module, cx.cls
+    label = f'{cx.label}/block[{name}]'
+    pre = st
+    for i, r in enumerate(spec.get('requires', [])):
+        g = eval_clause(ex, pre, r, scx)
+        ex.oblige(pre, f'{label}.requires[{i}]', g, kind='block-pre', info=dict(clause=r))
+        pre = pre.assume(g)
+    outs = []
+    conds = []
+    for kind, cond in spec.get('raises', {}).items():
+        cz = eval_clause(ex, pre, cond, scx)
+        conds.append(cz)
+        if ex.feasible(pre, cz):
+            s_r = pre.assume(cz)
+            if ex.permitted(s_r, kind):
+                outs.append(('raise', s_r, kind))
+            else:
+                ex.oblige(s_r, f'{label}.no-{kind}', z3.BoolVal(False), kind='absence')
+    normal = pre.assume(*[z3.Not(c_) for c_ in conds]) if conds else pre
+    post = normal.copy(snaps=dict(normal.snaps, old=(normal.vars, normal.heap)))
+    # locals assigned by the block
+    newvars = dict(post.vars)
+    ltypes = spec.get('locals', {})
+    for nme in sorted(assigned_names(bstmts)):
+        dt = None
+        if nme in ltypes:
+            dt = ex.tenv.parse(ltypes[nme])
+        elif nme in post.vars and post.vars[nme].ty.kind != 'none':
+            dt = declared_local(ex, cx, nme) or post.vars[nme].ty
+        else:
+            dt = declared_local(ex, cx, nme)
+        if dt is None:
+            continue       # dead after the block unless declared
+        newvars[nme] = ex.fresh(dt, nme)
+    post = post.copy(vars=newvars)
+    for nme in assigned_names(bstmts):
+        if nme in post.vars:
+            for fact in ex.type_facts(post.vars[nme]):
+                post = post.assume(fact)
+    post = apply_modifies(ex, post, spec.get('modifies', []), scx, hint='B_' + name.replace('.', '_'))
+    if spec.get('allocates'):
+        al = ex.heap_get(post, 'alloc', z3.ArraySort(z3.IntSort(), z3.BoolSort()))
+        al2 = ex.fresh_z(al.sort(), 'alloc')
+        r = z3.Int('r!al')
+        post = post.setheap('alloc', al2).assume(z3.ForAll([r], z3.Implies(z3.Select(al, r), z3.Select(al2, r))))
+    for cl in spec.get('ensures', []):
+        post = post.assume(eval_clause(ex, post, cl, scx))
+    post = post.copy(snaps=st.snaps)
+    return outs + [('normal', post, None)]
